@@ -186,8 +186,9 @@ func (matrix *SparseIntMatrix) SLICE(rfrom, rto, cfrom, cto int) *SparseIntMatri
   return &m
 }
 func (matrix *SparseIntMatrix) AsSparseIntVector() *SparseIntVector {
-  if matrix.cols < matrix.colMax - matrix.colOffset ||
-    (matrix.rows < matrix.rowMax - matrix.rowOffset) {
+  // a view (fewer rows or columns than the storage block) does not own the
+  // underlying vector: collect its elements
+  if matrix.rowMax > matrix.rows || matrix.colMax > matrix.cols {
     n, m := matrix.Dims()
     v := nilSparseIntVector(n*m)
     for it := matrix.ConstIterator(); it.Ok(); it.Next() {
